@@ -186,6 +186,16 @@ func checkConfig(cfg *chanmodel.Config, idx int, jsPath, bin string, label strin
 		}
 	}
 	ev.Count("schedules_per_config_total", int64(runs))
+	if idx == 0 {
+		var traces []string
+		for k := range seenTrace {
+			traces = append(traces, k)
+			if len(traces) == 2 {
+				break
+			}
+		}
+		ev.Sample(map[string]any{"configuration": desc, "model_states": sum.States, "schedules_run": runs, "observed_traces": traces})
+	}
 }
 
 func TestCheck(t *testing.T) {
